@@ -314,6 +314,14 @@ func Run(seed int64, n int, outDir string) error {
 			return err
 		}
 	}
+	// nodes built with the minimum gas price configured in each of the four ways (corpus: one
+	// of each; then random), a handful of CheckTx each
+	nNodes := 8 + n/200
+	for k := 0; k < nNodes; k++ {
+		if err := e.nodeConfigCases(k); err != nil {
+			return err
+		}
+	}
 	if _, err := cf.Write(outDir, "cases", 400); err != nil {
 		return err
 	}
